@@ -580,14 +580,16 @@ theorem c19_prettify_count (is : List Issue) (h : is ≠ []) :
 /-- … and the segment of an issue is its message, preceded by its path in dot notation when the
     path is not empty. -/
 theorem c19_prettify_place (i : Issue) :
-    prettySeg i = if i.path = [] then i.msg else dotPath i.path ++ ": " ++ i.msg := by
+    prettySeg i = if i.path = [] then i.msg else dotPathEsc i.path ++ ": " ++ i.msg := by
   unfold prettySeg
   cases h : i.path <;> simp
 
-/-- the full statement about the position: the dot notation identifies the path -/
+/-- the full statement about the position, for ToDotPath BEFORE c7ce73a (`dotPath`): the dot
+    notation identifies the path.  For the code as it stands (`dotPathEsc`) the full statement is
+    the theorem `c19_dotpath_esc_injective` of Proofs/C19Dot.lean. -/
 def c19_dotpath_injective_full : Prop := ∀ p q : List Seg, dotPath p = dotPath q → p = q
 
-/-- witness: it does not — a key is copied between `["` and `"]` without escaping, and an empty
+/-- legacy witness (code before c7ce73a): it did not — a key was copied between `["` and `"]` without escaping, and an empty
     first key renders to nothing -/
 theorem c19_dotpath_injective_full_false : ¬ c19_dotpath_injective_full := by
   intro h
